@@ -129,7 +129,7 @@ class ProgGen(object):
 
     # ------------------------------------------------------------ helpers
     def emit(self, s):
-        if self.hostile and self.r.random() < 0.1:
+        if self.hostile and self.r.random() < (0.35 if s[:2] in ("G2", "G3") else 0.1):
             # the code spelled with leading zeros, as CNC-style post-processors write it: G01, G00, G092, M0204
             s = re.sub(r"^([GMgm])(\d+)", lambda m: m.group(1) + "0" * self.r.choice([1, 1, 2]) + m.group(2), s)
         if self.hostile and self.r.random() < 0.06 and not s.upper().startswith("M117"):
